@@ -217,11 +217,56 @@ def wire_consts(prog):
     return consts
 
 
+SIZE_LIMITS = ("MAX_SIGNERS", "MTU_BYTES", "MAX_DATA_PER_SLICE", "MAX_TRANSACTION_SIZE", "MAX_DATA_PER_SHRED", "MAX_DATA_PER_SLICE_AFTER_PADDING")
+
+
+def ob_limits_inclusive(run, oid):
+    """the size limits are inclusive maxima: a value EQUAL to the limit is in range at every place that compares against it"""
+    prog = run.program("lib")
+    o = run.ob(oid, "every comparison of a length / count with a size limit (MTU_BYTES, MAX_SIGNERS, MAX_DATA_PER_SLICE, MAX_TRANSACTION_SIZE, ..) has an inclusive form: `x <= LIMIT` / `x > LIMIT`",
+               "sender and receiver must agree on the boundary: the send paths admit `len <= MTU_BYTES`, the decoder admits MAX_SIGNERS bits - a `<` / `>=` elsewhere refuses "
+               "(or panics on) a maximal message that the other side rightly produced", floor=3)
+
+    def lim(y):
+        if isinstance(y, tuple) and y:
+            if y[0] == "cref" and y[1].rsplit("::", 1)[-1] in SIZE_LIMITS:
+                return y[1].rsplit("::", 1)[-1]
+            if y[0] == "const" and len(y) > 3 and str(y[3]).rsplit("::", 1)[-1] in SIZE_LIMITS:
+                return str(y[3]).rsplit("::", 1)[-1]
+        return None
+    n = 0
+    for d, b in sorted(prog.bodies.items()):
+        if b.generated or "::tests::" in d or not d.startswith(A):
+            continue
+        seen = set()
+        for bl in b.blocks:
+            t = bl["term"]
+            if t["k"] != "switch":
+                continue
+            for y in mir.walk(b.operand_term(t["d"])):
+                if isinstance(y, tuple) and y and y[0] == "bin" and y[1] in ("Lt", "Le", "Gt", "Ge"):
+                    l, r = lim(K.peel(y[2])), lim(K.peel(y[3]))
+                    if not (l or r) or (l and r):
+                        continue
+                    key = (y[1], "L" if l else "R", l or r)
+                    if key in seen:
+                        continue
+                    seen.add(key)
+                    n += 1
+                    incl = (r and y[1] in ("Le", "Gt")) or (l and y[1] in ("Ge", "Lt"))
+                    o.check(bool(incl), "%s|%s|%s" % (fshort(d), l or r, "inclusive"), "%s compares with %s inclusively (%s)" % (fshort(d), l or r, y[1]), b.span, {"comparison": mir.show(y)[:100]},
+                            fail_what="%s treats a value equal to %s as out of range (%s)" % (fshort(d), l or r, mir.show(y)[:80]))
+    if n == 0:
+        o.missing("comparisons against the size limits")
+    return o
+
+
 def check(run, prefix="O19"):
     # the signer bitmask's raw words are an encoding detail: only the encoder / decoder / size function look at them (a decoder-side test on
     # raw words that the encoder does not mirror rejects the node's own encodings)
     from . import C09 as _C09
     _C09.ob_bitmask_access(run, prefix + ".9")
+    ob_limits_inclusive(run, prefix + ".11")
     from . import detectors as _DN
     _DN.ob_new_fields(run, prefix + ".8", ['network::', 'crypto::aggsig', 'crypto::signature'], 'decoders and the network front ends are stateless per datagram')
     from . import detectors as _DS
@@ -246,6 +291,9 @@ def check(run, prefix="O19"):
     # the other decoders - of data that arrives inside validated shreds, not as a datagram - must admit everything a slice may carry: their
     # preallocation limit is the slice limit, not the datagram limit (wincode charges len * size_of::<T>() against it before reading)
     slice_max = consts.get("MAX_DATA_PER_SLICE")
+    # (in-memory size of one element, fewest encoded bytes of one element) of the sequence each decoder reads: Transaction = Vec<u8> newtype (3 words; its
+    # encoding is at least the 8-byte length prefix), payload data = bytes
+    ELEM = {"the transaction list of a slice": (24, 8), "a slice payload": (1, 1)}
     for fn, what in ((A + "consensus::blockstore::slot_block_data::BlockData::try_reconstruct_block", "the transaction list of a slice"),
                      ("<" + A + "types::slice::SlicePayload as core::convert::TryFrom<&[u8]>>::try_from", "a slice payload")):
         fb = prog.body(fn)
@@ -257,6 +305,14 @@ def check(run, prefix="O19"):
         ok = len(ds) == 1 and ds[0].name.endswith("deserialize_exact") and ds[0].name.startswith("wincode::") and bool(m2) and slice_max is not None and int(m2.group(1)) >= slice_max
         o.check(ok, "%s|slice-decoder-limit" % fshort(fn), "%s is decoded exactly, with a preallocation limit >= MAX_DATA_PER_SLICE (%s)" % (what, slice_max), ds[0].span if ds else fb.span,
                 {"calls": [c.name for c in ds], "limit": m2.group(1) if m2 else None})
+        if ok:
+            mem, enc = ELEM[what]
+            need = (slice_max // enc) * mem
+            o.check(int(m2.group(1)) >= need, "%s|slice-decoder-admits-max-count" % fshort(fn),
+                    "the limit (%s) covers the in-memory size of the largest element count a slice can encode: (MAX_DATA_PER_SLICE / %d) * %d = %d" % (m2.group(1), enc, mem, need),
+                    ds[0].span, {"limit": int(m2.group(1)), "needed": need},
+                    fail_what="the preallocation limit %s is charged count * %d bytes but a slice can encode up to %d elements of >= %d bytes: a correct leader's slice with more than %d "
+                              "small elements is undecodable (needed: %d)" % (m2.group(1), mem, slice_max // enc, enc, int(m2.group(1)) // mem, need))
     recv = [x for d, x in prog.bodies.items() if d.endswith("Network>::receive") and d.startswith("<" + NET)]
     if len(recv) < 2:
         o.missing("Network::receive impls (UdpNetwork, SimulatedNetwork)")
